@@ -70,6 +70,21 @@ Fixpoint xpub_merge_with (guarded : bool) (self other : alist) : outcome alist :
       end
   end.
 
+(* ---- a Vec field (Global::scalars : Vec<Tweak>) kept as a list in vector order, duplicates included; the statements are applied
+   exactly as written, in source order (Gen.Tables gives the sequence, e.g. [VO_Extend; VO_Sort; VO_Dedup]) *)
+Fixpoint al_ins (k v : bytes) (s : alist) : alist :=          (* stable insertion: before the first element that is not smaller *)
+  match s with
+  | [] => [(k, v)]
+  | (k', v') :: r => match bytes_cmp k k' with Gt => (k', v') :: al_ins k v r | _ => (k, v) :: s end
+  end.
+Definition al_sort (l : alist) : alist := fold_right (fun kv s => al_ins (fst kv) (snd kv) s) [] l.        (* Vec::sort: stable *)
+Fixpoint al_dd (prev : bytes) (l : alist) : alist :=
+  match l with [] => [] | (k, v) :: r => if bytes_eqb k prev then al_dd prev r else (k, v) :: al_dd k r end.
+Definition al_dedup (l : alist) : alist := match l with [] => [] | (k, v) :: r => (k, v) :: al_dd k r end.  (* Vec::dedup: consecutive repeats *)
+Definition vec_step (other : alist) (v : alist) (op : vec_op) : alist :=
+  match op with VO_Extend => v ++ other | VO_Sort => al_sort v | VO_Dedup => al_dedup v end.
+Definition vec_merge (ops : list vec_op) (self other : alist) : alist := fold_left (vec_step other) ops self.
+
 (* ---- one statement of a `fn merge` body *)
 Definition step_with (guarded : bool) (s : field * merge_policy) (self other : pmap) : outcome pmap :=
   let f := fst s in
@@ -81,7 +96,7 @@ Definition step_with (guarded : bool) (s : field * merge_policy) (self other : p
       | _, _ => Val self
       end
   | MP_Extend => Val (set_kyd self f (al_extend (kyd self f) (kyd other f)))
-  | MP_ScalarUnion => Val (set_kyd self f (al_extend (kyd self f) (kyd other f)))      (* extend; sort; dedup on a key set *)
+  | MP_VecOps ops => Val (set_kyd self f (vec_merge ops (kyd self f) (kyd other f)))
   | MP_Max => Val (set_unk self f (max_opt (unk self f) (unk other f)))
   | MP_OrFlags => Val (set_unk self f (or_flags (unk self f) (unk other f)))
   | MP_Xpub => obind (xpub_merge_with guarded (kyd self f) (kyd other f)) (fun l => Val (set_kyd self f l))
